@@ -141,6 +141,23 @@ FirstDefiner(m, D) ==
     THEN m[MinOf({k \in DOMAIN m : m[k] \in D /\ m[k] # OBJ})] ELSE 0
 
 -----------------------------------------------------------------------------
+(* Well-typedness of generic hierarchies.  Inst(H, c) = pairs <<g, a>>: class c inherits from  *)
+(* the generic class g with g's type variable instantiated as a (the Sp codes: 0 unconstrained, *)
+(* 1 int, 2 str, 3 the type variable of c itself).  A class is Clean when every generic        *)
+(* ancestor is instantiated in ONE way only; `class D(IntBox, StrBox)` runs under CPython but   *)
+(* is ill-typed (pytype reports invalid-annotation and treats the class as Any), so reads are   *)
+(* judged through Clean classes only.  Class statements are judged always.                      *)
+RECURSIVE Inst(_, _)
+Inst(H, c) ==
+  UNION {LET b == H[c][k]
+             o == Origin(b) IN
+         IF o \in {OBJ, GEN} THEN {}
+         ELSE (IF GenericStmt(H[o]) THEN {<<o, Sp(b)>>} ELSE {})
+              \cup {<<ga[1], IF ga[2] = 3 THEN Sp(b) ELSE ga[2]>> : ga \in Inst(H, o)}
+         : k \in DOMAIN H[c]}
+Clean(H, c) == \A p1, p2 \in Inst(H, c) : p1[1] = p2[1] => p1[2] = p2[2]
+
+-----------------------------------------------------------------------------
 (* Attribute histories.  Class dictionaries change after the class statement                  *)
 (* (`K.tag = v`); a read must find the definition that is first in the MRO NOW.               *)
 (* defs[c] = marker of the value `tag` currently has in the dictionary of class c, 0 = the    *)
